@@ -41,6 +41,19 @@ class EmptyVertex(Vertex):
         return 0
 
 
+class StrVertex(Vertex):
+    """Debug repr and pretty str differ; format() differs again."""
+
+    def __repr__(self):
+        return f"StrVertex({getattr(self, 'idx', '?')!r})"
+
+    def __str__(self):
+        return f"pretty{getattr(self, 'idx', '?')}"
+
+    def __format__(self, spec):
+        return f"fmt{getattr(self, 'idx', '?')}"
+
+
 class VPlain(Vertex):
     pass
 
@@ -128,7 +141,7 @@ class MultiLink(Link):
 
 VERTEX_CLASSES = {
     c.__name__: c
-    for c in (Vertex, VSub, VSubSub, FalsyVertex, EmptyVertex, Universe, VPlain, VFancy, VBoth, EqVertex)
+    for c in (Vertex, VSub, VSubSub, FalsyVertex, EmptyVertex, Universe, VPlain, VFancy, VBoth, EqVertex, StrVertex)
 }
 EDGE_CLASSES = {
     c.__name__: c
@@ -256,6 +269,41 @@ def f_reentrant(e, v):
     except RecursionError:  # pragma: no cover
         return True
     return len(seen) >= 1 and getattr(e, "tag", 0) % 4 != 3
+
+
+class FreshMin:
+    """
+    A callable filter OBJECT that the workload creates anew for one query and drops afterwards (so the next
+    one is likely to be allocated at the same address).  Equal parameters do not make two of them the same filter.
+    """
+
+    def __init__(self, n):
+        self.n = n
+
+    def __call__(self, e, v):
+        return getattr(v, "idx", 0) >= self.n
+
+
+class UnhashableFilter:
+    """A well-behaved callable that defines __eq__ without __hash__ (a plain dataclass would do)."""
+
+    __hash__ = None
+
+    def __init__(self, m):
+        self.m = m
+
+    def __eq__(self, other):
+        return isinstance(other, UnhashableFilter) and other.m == self.m
+
+    def __call__(self, e, v=None):
+        return getattr(e, "tag", 0) % self.m != 1
+
+
+def nb_filter(name):
+    """Resolve a filter name; 'fresh:<n>' builds a new short-lived object on every call."""
+    if isinstance(name, str) and name.startswith("fresh:"):
+        return FreshMin(int(name.split(":")[1]))
+    return NB_FILTERS[name]
 
 
 NB_FILTERS = {
